@@ -1,8 +1,7 @@
 (** Transcription of cicada's job table code:
       src/shell.rs   insert_job, mark_job_member_stopped / _continued,
                      mark_job_as_running / _stopped, remove_pid_from_job
-                     (with core::slice::binary_search_by, toolchain source
-                     library/core/src/slice/mod.rs, transcribed line by line)
+                     (Iterator::position since /repo bbf8fc1)
       src/types.rs   Job::all_members_stopped / all_members_running, WaitStatus
       src/signals.rs REAP_MAP / STOP_MAP / CONT_MAP / KILL_MAP and handle_sigchld
       src/jobc.rs    mark_job_as_done, mark_job_member_stopped / _continued
@@ -63,6 +62,12 @@ Fixpoint set_add (x : Z) (l : list Z) : list Z :=
   | y :: r => if x <? y then x :: y :: r else if x =? y then y :: r else y :: set_add x r
   end.
 
+(** HashSet<i32> insert / remove: the order of the list carries no meaning
+    (snapshots are printed sorted) *)
+Definition hs_add (x : Z) (l : list Z) : list Z := if memZ x l then l else x :: l.
+Definition hs_remove (x : Z) (l : list Z) : list Z := filter (fun y => negb (y =? x)) l.
+
+(** Vec::remove of the first occurrence *)
 Fixpoint set_remove (x : Z) (l : list Z) : list Z :=
   match l with [] => [] | y :: r => if y =? x then r else y :: set_remove x r end.
 
@@ -86,31 +91,17 @@ Definition all_members_stopped (j : job) : bool :=
 Definition all_members_running (j : job) : bool :=
   match jstopped j with [] => true | _ => false end.
 
-(** ---------- core::slice::binary_search_by, f = |p| p.cmp(x)
-    [size], [base], [half], [mid] as in the source; the while loop runs at
-    most [size] times, [fuel] is that bound. Returns inl i for Ok(i) and
-    inr i for Err(i). *)
-Fixpoint bs_loop (fuel : nat) (l : list Z) (x : Z) (base size : nat) : nat :=
-  match fuel with
-  | O => base
-  | S f =>
-      if (size <=? 1)%nat then base
-      else
-        let half := (size / 2)%nat in
-        let mid := (base + half)%nat in
-        (* base = select_unpredictable(cmp == Greater, base, mid) *)
-        let base' := if nth mid l 0 >? x then base else mid in
-        bs_loop f l x base' (size - half)%nat
+(** ---------- Iterator::position(|p| *p == pid): index of the first match.
+    (Until /repo commit bbf8fc1 this was slice::binary_search on the vector in
+    launch order; that transcription and its lemmas are kept, outside every
+    property cone, in Historical/BinarySearch.v.) *)
+Fixpoint position_from (i : nat) (l : list Z) (x : Z) : option nat :=
+  match l with
+  | [] => None
+  | y :: r => if y =? x then Some i else position_from (S i) r x
   end.
 
-Definition binary_search (l : list Z) (x : Z) : nat + nat :=
-  let size := length l in
-  if (size =? 0)%nat then inr 0%nat
-  else
-    let base := bs_loop size l x 0%nat size in
-    let c := nth base l 0 in
-    if c =? x then inl base
-    else inr (base + (if Z.ltb c x then 1 else 0))%nat.
+Definition position (l : list Z) (x : Z) : option nat := position_from 0%nat l x.
 
 Fixpoint remove_at (i : nat) (l : list Z) : list Z :=
   match l, i with
@@ -154,11 +145,11 @@ Fixpoint get_job_by_gid (t : table) (gid : Z) : option job :=
   end.
 
 Definition sh_mark_job_member_stopped (t : table) (pid gid : Z) : table * option job :=
-  let t' := upd_gid (fun j => mkjob (jid j) (jgid j) (jpids j) (set_add pid (jstopped j)) (jst j) (jbg j)) gid t in
+  let t' := upd_gid (fun j => mkjob (jid j) (jgid j) (jpids j) (hs_add pid (jstopped j)) (jst j) (jbg j)) gid t in
   (t', get_job_by_gid t' gid).
 
 Definition sh_mark_job_member_continued (t : table) (pid gid : Z) : table * option job :=
-  let t' := upd_gid (fun j => mkjob (jid j) (jgid j) (jpids j) (set_remove pid (jstopped j)) (jst j) (jbg j)) gid t in
+  let t' := upd_gid (fun j => mkjob (jid j) (jgid j) (jpids j) (hs_remove pid (jstopped j)) Running (jbg j)) gid t in
   (t', get_job_by_gid t' gid).
 
 Definition sh_mark_job_as_running (t : table) (gid : Z) (bg : bool) : table :=
@@ -167,16 +158,16 @@ Definition sh_mark_job_as_running (t : table) (gid : Z) (bg : bool) : table :=
 Definition sh_mark_job_as_stopped (t : table) (gid : Z) : table :=
   upd_gid (fun j => mkjob (jid j) (jgid j) (jpids j) (jstopped j) Stopped true) gid t.
 
-(** remove_pid_from_job: binary_search on the pid vector as it is (insertion
-    order), remove on Ok, drop the job when the vector is empty. *)
+(** remove_pid_from_job: position of the pid in the vector, remove on Some,
+    drop the job when the vector is empty. *)
 Fixpoint remove_pid_from_job (t : table) (gid pid : Z) : table :=
   match t with
   | [] => []
   | j :: r =>
       if jgid j =? gid then
-        let pids' := match binary_search (jpids j) pid with
-                     | inl i => remove_at i (jpids j)
-                     | inr _ => jpids j
+        let pids' := match position (jpids j) pid with
+                     | Some i => remove_at i (jpids j)
+                     | None => jpids j
                      end in
         match pids' with
         | [] => r
@@ -185,8 +176,35 @@ Fixpoint remove_pid_from_job (t : table) (gid pid : Z) : table :=
       else j :: remove_pid_from_job r gid pid
   end.
 
+(** does remove_pid_from_job drop the job (its Some(job) result)? *)
+Fixpoint remove_drops (t : table) (gid pid : Z) : bool :=
+  match t with
+  | [] => false
+  | j :: r =>
+      if jgid j =? gid then
+        match (match position (jpids j) pid with
+               | Some i => remove_at i (jpids j)
+               | None => jpids j
+               end) with
+        | [] => true
+        | _ => false
+        end
+      else remove_drops r gid pid
+  end.
+
+Definition is_stopped (s : jstat) : bool := match s with Stopped => true | Running => false end.
+
 (** ---------- jobc.rs wrappers *)
-Definition mark_job_as_done (t : table) (gid pid : Z) : table := remove_pid_from_job t gid pid.
+(** mark_job_as_done: when the job lives on and every remaining member is
+    stopped, the job is marked Stopped (since /repo 2503a9b) *)
+Definition mark_job_as_done (t : table) (gid pid : Z) : table :=
+  let t' := remove_pid_from_job t gid pid in
+  if remove_drops t gid pid then t'
+  else match get_job_by_gid t' gid with
+       | Some job => if negb (is_stopped (jst job)) && all_members_stopped job
+                     then sh_mark_job_as_stopped t' gid else t'
+       | None => t'
+       end.
 
 (** note: the wrapper computes [_gid] (getpgid when gid == 0) but uses [gid] *)
 Definition mark_job_member_stopped (t : table) (pid gid : Z) : table :=
@@ -205,8 +223,9 @@ Definition mark_job_member_continued (t : table) (pid gid : Z) : table :=
 Definition park (m : maps) (e : ev) : maps :=
   match e with
   | Exited p s => mkmaps (map_put p s (m_reap m)) (m_stop m) (m_cont m) (m_kill m)
-  | StoppedE p _ => mkmaps (m_reap m) (set_add p (m_stop m)) (m_cont m) (m_kill m)
-  | Continued p => mkmaps (m_reap m) (m_stop m) (set_add p (m_cont m)) (m_kill m)
+  (* the later of a stop and a continue supersedes the other (since /repo ac20f13) *)
+  | StoppedE p _ => mkmaps (m_reap m) (hs_add p (m_stop m)) (hs_remove p (m_cont m)) (m_kill m)
+  | Continued p => mkmaps (m_reap m) (hs_remove p (m_stop m)) (hs_add p (m_cont m)) (m_kill m)
   | Signaled p s => mkmaps (m_reap m) (m_stop m) (m_cont m) (map_put p s (m_kill m))
   end.
 
@@ -219,18 +238,22 @@ Definition handle_sigchld (m : maps) (q : list ev) : maps := fold_left park q m.
     hook answers ECHILD and the loop breaks). *)
 Record wres := mkwres { w_sh : shell; w_status : Z; w_blocked : bool; w_left : list ev }.
 
+(** [settled]: members that have exited / been killed or are currently
+    stopped (since /repo 1687e77; a counter of events before) *)
 Fixpoint wait_loop (q : list ev) (s : shell) (gid : Z) (pids : list Z) (pid_last : Z)
-         (count_child count_waited : nat) (status : Z) : wres :=
+         (count_child : nat) (settled : list Z) (status : Z) : wres :=
   match q with
   | [] => mkwres s status true []
   | e :: q' =>
       let pid := ev_pid e in
       let is_fg := memZ pid pids in
-      let count_waited := if is_fg && negb (is_cont e) then S count_waited else count_waited in
+      let settled := if is_fg then (if is_cont e then hs_remove pid settled else hs_add pid settled)
+                     else settled in
       match e with
       | Continued _ =>
-          let s := if is_fg then s else mksh (tab s) (park (mp s) e) in
-          wait_loop q' s gid pids pid_last count_child count_waited status
+          let s := if is_fg then mksh (fst (sh_mark_job_member_continued (tab s) pid gid)) (mp s)
+                   else mksh (tab s) (park (mp s) e) in
+          wait_loop q' s gid pids pid_last count_child settled status
       | _ =>
           let s :=
             match e with
@@ -243,15 +266,15 @@ Fixpoint wait_loop (q : list ev) (s : shell) (gid : Z) (pids : list Z) (pid_last
             | Continued _ => s
             end in
           let status := if is_fg && (pid =? pid_last) then ev_status e else status in
-          if (count_child <=? count_waited)%nat then mkwres s status false q'
-          else wait_loop q' s gid pids pid_last count_child count_waited status
+          if (count_child <=? length settled)%nat then mkwres s status false q'
+          else wait_loop q' s gid pids pid_last count_child settled status
       end
   end.
 
 Definition wait_fg_job (s : shell) (gid : Z) (pids : list Z) (q : list ev) : wres :=
   match pids with
   | [] => mkwres s 0 false q
-  | _ => wait_loop q s gid pids (last pids 0) (length pids) 0%nat 0
+  | _ => wait_loop q s gid pids (last pids 0) (length pids) [] 0
   end.
 
 (** ---------- jobc.rs: try_wait_bg_jobs (sig_handler_enabled = false)
@@ -270,10 +293,10 @@ Definition poll_pid (gid : Z) (s : shell) (pid : Z) : shell :=
       | None =>
           if memZ pid (m_stop m) then
             mksh (mark_job_member_stopped (tab s) pid gid)
-                 (mkmaps (m_reap m) (set_remove pid (m_stop m)) (m_cont m) (m_kill m))
+                 (mkmaps (m_reap m) (hs_remove pid (m_stop m)) (m_cont m) (m_kill m))
           else if memZ pid (m_cont m) then
             mksh (mark_job_member_continued (tab s) pid gid)
-                 (mkmaps (m_reap m) (m_stop m) (set_remove pid (m_cont m)) (m_kill m))
+                 (mkmaps (m_reap m) (m_stop m) (hs_remove pid (m_cont m)) (m_kill m))
           else s
       end
   end.
